@@ -440,3 +440,149 @@ Example alloc_bounded_nonvacuous :
   guard FHashStep probe_cfg 10 10 = false /\
   bar_columns 100 80 = 79 /\ bar_columns 100 100 = 99 /\ bar_columns 100 101 = 100 /\ bar_columns 100 50000000 = 100.
 Proof. vm_compute. repeat split; reflexivity. Qed.
+
+(* ------------------------------------------------------------------------------------ *)
+(* the sender's chunk buffer *)
+
+(* every store to bufferSize and the conditions in front of it; the protocol-1 sender's size *)
+Lemma guards_present_bufsize :
+  Skel_guards.bufsize_stores =
+  [("newTransfer", "t.bufferSize.Store(10240)", []);
+   ("trzszTransfer.pipelineRecvAck", "t.bufferSize.Store(minInt64(bufSize*2, t.transferConfig.MaxBufSize))",
+    ["!(length != ack.length)"; "ignoreChunkTimeCount <= 0 || t.bufInitPhase.Load()";
+     "length == bufSize && chunkTime < 500*time.Millisecond && bufSize < t.transferConfig.MaxBufSize"]);
+   ("trzszTransfer.pipelineRecvAck", "t.bufferSize.Store(bufSize)",
+    ["!(length != ack.length)"; "ignoreChunkTimeCount <= 0 || t.bufInitPhase.Load()";
+     "!(length == bufSize && chunkTime < 500*time.Millisecond && bufSize < t.transferConfig.MaxBufSize)";
+     "chunkTime >= 2*time.Second && length <= bufSize"])]%string /\
+  Skel_guards.v1_bufsize_assign =
+  [("trzszTransfer.sendFileData", "bufSize := int64(1024)", []);
+   ("trzszTransfer.sendFileData", "bufSize = minInt64(bufSize*2, t.transferConfig.MaxBufSize)",
+    ["step < size"; "length == bufSize && chunkTime < 500*time.Millisecond && bufSize < t.transferConfig.MaxBufSize"]);
+   ("trzszTransfer.sendFileData", "bufSize = 1024",
+    ["step < size"; "!(length == bufSize && chunkTime < 500*time.Millisecond && bufSize < t.transferConfig.MaxBufSize)";
+     "chunkTime >= 2*time.Second && bufSize > 1024"])]%string.
+Proof. split; reflexivity. Qed.
+
+Lemma min_chunk_le_init : 1 <= Consts.guards_min_chunk <= Consts.guards_init_buffer_size.
+Proof. vm_compute. split; discriminate. Qed.
+Lemma v1_init_pos : 1 <= Consts.guards_v1_init_bufsize.
+Proof. vm_compute. discriminate. Qed.
+Lemma grow_factor_ok : 1 <= Consts.guards_grow_factor /\ Consts.guards_grow_factor * Consts.guards_bufsize_clamp < 2 ^ 63.
+Proof. vm_compute. split; [discriminate|reflexivity]. Qed.
+Lemma slow_secs_ok : 1 <= Consts.guards_ack_slow_ms / 1000.
+Proof. vm_compute. discriminate. Qed.
+
+Definition cap_inv (lo init maxbuf c : Z) : Prop := lo <= c <= Z.max init maxbuf.
+
+Lemma grow_in_range : forall lo init maxbuf bs, 1 <= lo -> maxbuf <= Consts.guards_bufsize_clamp ->
+  cap_inv lo init maxbuf bs -> bs < maxbuf ->
+  cap_inv lo init maxbuf (gd_min64 (gd_wrap64 (bs * Consts.guards_grow_factor)) maxbuf).
+Proof.
+  intros lo init maxbuf bs Hlo Hc [H1 H2] Hlt.
+  destruct grow_factor_ok as [Hf Ho].
+  assert (Hw : gd_wrap64 (bs * Consts.guards_grow_factor) = bs * Consts.guards_grow_factor).
+  { apply wrap64_small. split; [nia|]. nia. }
+  rewrite Hw. unfold gd_min64, cap_inv.
+  destruct (bs * Consts.guards_grow_factor <? maxbuf) eqn:Hm.
+  - apply Z.ltb_lt in Hm. split; [nia|lia].
+  - split; lia.
+Qed.
+
+Lemma bufsize_step_inv : forall maxbuf bs a, maxbuf <= Consts.guards_bufsize_clamp -> gd_ack_ok a = true ->
+  cap_inv Consts.guards_min_chunk Consts.guards_init_buffer_size maxbuf bs ->
+  cap_inv Consts.guards_min_chunk Consts.guards_init_buffer_size maxbuf (gd_bufsize_step maxbuf bs a).
+Proof.
+  intros maxbuf bs a Hc Hok Hinv. unfold gd_bufsize_step.
+  pose proof min_chunk_le_init as [Hm1 Hm2].
+  destruct ((ga_len a =? bs) && gd_is_fast (ga_time a) && (bs <? maxbuf)) eqn:Hg.
+  - apply andb_true_iff in Hg. destruct Hg as [_ Hlt]. apply Z.ltb_lt in Hlt.
+    apply grow_in_range; assumption.
+  - destruct (ga_time a) as [| |k] eqn:Ht; try exact Hinv.
+    destruct (ga_len a <=? bs); [|exact Hinv].
+    unfold gd_ack_ok in Hok. rewrite Ht in Hok. apply Z.leb_le in Hok. pose proof slow_secs_ok as Hs.
+    destruct Hinv as [H1 H2].
+    assert (Hq : 0 <= Z.quot bs k <= bs).
+    { rewrite Z.quot_div_nonneg by lia. split; [apply Z.div_pos; lia|].
+      apply Z.div_le_upper_bound; [lia|nia]. }
+    unfold cap_inv. destruct (Z.quot bs k <? Consts.guards_min_chunk) eqn:Hlt.
+    + lia.
+    + apply Z.ltb_ge in Hlt. lia.
+Qed.
+
+Lemma bufsize_run_inv : forall maxbuf l bs, maxbuf <= Consts.guards_bufsize_clamp -> forallb gd_ack_ok l = true ->
+  cap_inv Consts.guards_min_chunk Consts.guards_init_buffer_size maxbuf bs ->
+  Forall (cap_inv Consts.guards_min_chunk Consts.guards_init_buffer_size maxbuf) (gd_bufsize_run maxbuf bs l).
+Proof.
+  intros maxbuf l. induction l as [|a r IH]; intros bs Hc Hok Hinv; cbn [gd_bufsize_run].
+  - constructor; [exact Hinv|constructor].
+  - cbn [forallb] in Hok. apply andb_true_iff in Hok. destruct Hok as [Ha Hr].
+    constructor; [exact Hinv|]. apply IH; try assumption. apply bufsize_step_inv; assumption.
+Qed.
+
+(* the capacity handed to make is always at least the floor (so positive) and at most the larger of
+   the initial size and the negotiated limit - for EVERY announced limit that recvConfig lets
+   through (zero and negative ones included) and every sequence of acknowledgements *)
+Lemma capacity_bounded : forall maxbuf l, maxbuf <= Consts.guards_bufsize_clamp -> forallb gd_ack_ok l = true ->
+  Forall (fun c => Consts.guards_min_chunk <= c <= Z.max Consts.guards_init_buffer_size maxbuf) (gd_capacities maxbuf l).
+Proof.
+  intros maxbuf l Hc Hok. apply bufsize_run_inv; try assumption.
+  pose proof min_chunk_le_init. unfold cap_inv. lia.
+Qed.
+
+Lemma capacity_bounded_cfg : forall j maxbuf l, recv_config_bufsize j = Some maxbuf -> forallb gd_ack_ok l = true ->
+  Forall (fun c => 1 <= c <= Z.max Consts.guards_init_buffer_size Consts.guards_bufsize_clamp) (gd_capacities maxbuf l).
+Proof.
+  intros j maxbuf l Hj Hok. apply recv_config_bufsize_ok in Hj. unfold cfg_ok in Hj. cbn [bufsize] in Hj. apply Z.leb_le in Hj.
+  pose proof (capacity_bounded maxbuf l Hj Hok) as H. pose proof min_chunk_le_init.
+  eapply Forall_impl; [|exact H]. cbn beta. intros c Hc. lia.
+Qed.
+
+(* protocol 1 *)
+Lemma bufsize_step_v1_inv : forall maxbuf bs a, maxbuf <= Consts.guards_bufsize_clamp ->
+  cap_inv Consts.guards_v1_init_bufsize Consts.guards_v1_init_bufsize maxbuf bs ->
+  cap_inv Consts.guards_v1_init_bufsize Consts.guards_v1_init_bufsize maxbuf (gd_bufsize_step_v1 maxbuf bs a).
+Proof.
+  intros maxbuf bs a Hc Hinv. unfold gd_bufsize_step_v1. pose proof v1_init_pos as Hp.
+  destruct ((ga_len a =? bs) && gd_is_fast (ga_time a) && (bs <? maxbuf)) eqn:Hg.
+  - apply andb_true_iff in Hg. destruct Hg as [_ Hlt]. apply Z.ltb_lt in Hlt.
+    apply grow_in_range; assumption.
+  - destruct (ga_time a); try exact Hinv.
+    destruct (bs >? Consts.guards_v1_init_bufsize); [|exact Hinv]. unfold cap_inv in *. lia.
+Qed.
+
+Lemma capacity_bounded_v1 : forall maxbuf l, maxbuf <= Consts.guards_bufsize_clamp ->
+  Forall (fun c => 1 <= c <= Z.max Consts.guards_v1_init_bufsize maxbuf) (gd_bufsize_run_v1 maxbuf Consts.guards_v1_init_bufsize l).
+Proof.
+  intros maxbuf l Hc. pose proof v1_init_pos as Hp.
+  assert (H : forall l bs, cap_inv Consts.guards_v1_init_bufsize Consts.guards_v1_init_bufsize maxbuf bs ->
+              Forall (cap_inv Consts.guards_v1_init_bufsize Consts.guards_v1_init_bufsize maxbuf) (gd_bufsize_run_v1 maxbuf bs l)).
+  { induction l0 as [|a r IH]; intros bs Hinv; cbn [gd_bufsize_run_v1].
+    - constructor; [exact Hinv|constructor].
+    - constructor; [exact Hinv|]. apply IH. apply bufsize_step_v1_inv; assumption. }
+  eapply Forall_impl; [|apply H; unfold cap_inv; lia]. cbn beta. unfold cap_inv. intros c Hcc. lia.
+Qed.
+
+(* "the capacity stays within what the peer announced, or the configuration is rejected" is NOT what
+   the code does: recvConfig rejects no integer, and the buffer starts at its own initial size *)
+Definition capacity_within_announced_full : Prop :=
+  forall j maxbuf l, recv_config_bufsize j = Some maxbuf -> forallb gd_ack_ok l = true ->
+  Forall (fun c => 1 <= c <= maxbuf) (gd_capacities maxbuf l).
+
+Lemma capacity_within_announced_refuted :
+  (exists j maxbuf, recv_config_bufsize j = Some maxbuf /\ maxbuf = -1 /\ gd_capacities maxbuf [] = [10240]) /\
+  (exists j maxbuf, recv_config_bufsize j = Some maxbuf /\ maxbuf = 1024 /\ gd_capacities maxbuf [] = [10240]) /\
+  ~ capacity_within_announced_full.
+Proof.
+  split; [|split].
+  - exists (JInt (-1)), (-1). repeat split; reflexivity.
+  - exists (JInt 1024), 1024. repeat split; reflexivity.
+  - intros H. specialize (H (JInt (-1)) (-1) [] eq_refl eq_refl).
+    inversion H as [|c r Hc _]. subst. vm_compute in Hc. destruct Hc as [_ Hc]. apply Hc. reflexivity.
+Qed.
+
+(* with the growth guard relaxed to an inequality test a negative limit is stored after one full,
+   fast chunk, and make is handed a negative capacity *)
+Lemma growth_guard_ne_refuted : exists maxbuf a, maxbuf <= Consts.guards_bufsize_clamp /\ gd_ack_ok a = true /\
+  gd_bufsize_step_ne maxbuf Consts.guards_init_buffer_size a = -1.
+Proof. exists (-1), {| ga_len := 10240; ga_time := GdFast |}. vm_compute. repeat split; try reflexivity. discriminate. Qed.
